@@ -8,7 +8,7 @@ CHOLESKY.  Large orders: observation events validated by spec/obj/ObsTrace.tla.
 import numpy as np
 
 from .. import core, material as M, tlc
-from ..kern_util import call_guard, cmp_vec, cmp_scalar
+from ..kern_util import call_guard, cmp_vec, cmp_scalar, scale_for
 
 
 def levinson_cfg(order, r0set, parts, cplx):
@@ -69,6 +69,20 @@ def replay_levinson(chk, st, cplx):
                           'LEVINSON rejects the positive-definite r=%s: %r' % (case['r'], res), case)
         if st['status'] == 'singular':
             chk.skip('levinson-singular-raise-clause')
+        # homogeneity: LEVINSON(c r) = (a, c P, k) for c > 0 - the positive-definiteness test cannot depend on the scale
+        if st['status'] in ('pd', 'indefinite') and not isinstance(arr, list):
+            cnt = getattr(chk, '_c10_scale', 0)
+            chk._c10_scale = cnt + 1
+            c = scale_for(cnt)
+            ok, res = call_guard(LEVINSON, arr * c)
+            if st['status'] == 'pd':
+                bad = ('raises %r' % (res,)) if not ok else (cmp_vec(res[0], expA) or cmp_scalar(res[1] / c, expP) or cmp_vec(res[2], expRef))
+                if bad:
+                    chk.violation('LEVINSON:scaled-input:%s:%s' % (mode, 'raises' if not ok else 'values'),
+                                  'LEVINSON(c*r) with c=%g for the positive-definite r=%s: %s' % (c, case['r'], bad), dict(case, scale=c))
+            elif ok:
+                chk.violation('LEVINSON:scaled-input:%s:no-raise-indefinite' % mode,
+                              'LEVINSON accepts c*r with c=%g for the non positive-definite r=%s' % (c, case['r']), dict(case, scale=c))
         # nesting: order argument on a longer sequence
         if st['status'] == 'pd' and k >= 1:
             ext = list(arr) + [arr[-1] * 0 + 1, arr[-1] * 0 - 2]
